@@ -83,6 +83,75 @@ def timer_awaitable_clause(rep, r5, m):
         r5.ok()
 
 
+def wait_result_rule(rep, rule, m, only=None):
+    """Every region that starts with the return of cmb_resourceguard_wait is classified by the codes its tests of the returned
+    value admit; a region that can be entered with a code other than success must end by returning exactly that value - it
+    neither carries on (taking the resource, waiting again) nor returns success.  Shared: R-C04-10, R-C05-5."""
+    import operator
+    OPS = {"!=": operator.ne, "==": operator.eq, "<": operator.lt, "<=": operator.le, ">": operator.gt, ">=": operator.ge}
+    waiters = sorted({f.key for f, c in inv.calls_to(m, "cmb_resourceguard_wait")})
+    n_regions = 0
+    for k in waiters:
+        f = m.funcs[k]
+        if only is not None and f.name not in only:
+            continue
+        if not (m.rel(f.file) or "").startswith(("src/", "include/")):
+            continue
+        seen = set()
+
+        def region(dom, flow, st, tr, why, where, ev, f=f, seen=seen):
+            nonlocal n_regions
+            if not tr or tr[0][0] != "resume" or tr[0][1] != "cmb_resourceguard_wait":
+                return
+            R = tr[0][5]
+            tests = []
+            for e in tr:
+                if e[0] != "assume":
+                    continue
+                mm = re.fullmatch(r"\(%s (!=|==|<|<=|>|>=) (\S+)\)" % re.escape(R), e[1])
+                flip = False
+                if not mm:
+                    mm2 = re.fullmatch(r"\((\S+) (!=|==|<|<=|>|>=) %s\)" % re.escape(R), e[1])
+                    if mm2:
+                        mm, flip = mm2, True
+                if not mm:
+                    continue
+                op, tok = (mm.group(1), mm.group(2)) if not flip else (mm.group(2), mm.group(1))
+                kv = 0 if tok == "NULL" else common.sigval(tok)
+                if kv is None:
+                    continue
+                if flip:
+                    op = {"<": ">", ">": "<", "<=": ">=", ">=": "<="}.get(op, op)
+                tests.append((op, kv, bool(e[2])))
+            cands = set(range(-8, 3)) | {17, 1 << 40, -(1 << 40)}
+            for _, kv, _t in tests:
+                cands |= {kv - 1, kv, kv + 1}
+            allowed = {v for v in cands if all(OPS[op](v, kv) == t for op, kv, t in tests)}
+            if allowed <= {0}:
+                return
+            n_regions += 1
+            ends = ev if isinstance(ev, tuple) else None
+            ok = ends is not None and ends[0] == "return" and ends[1] == R
+            key = (why, where, ok)
+            if key in seen:
+                return
+            seen.add(key)
+            rule.instance("%s: resumed with a code other than success (%s): ends with %s" % (f.name, "tested" if tests else "untested",
+                                                                                           (ends[:2] if ends else why)))
+            if ok:
+                rule.ok()
+            else:
+                what = "returns %s" % ends[1] if ends is not None and ends[0] == "return" else "carries on (%s)" % why
+                rep.finding(rule, f.name, "wait:signal-swallowed", "%s: on a path that is taken when the wait at the guard returns a "
+                            "code other than success (an interrupt, a preemption, a timeout, a cancellation), the function %s "
+                            "instead of returning that code: the notification is lost, and the caller goes on as if it had been "
+                            "served" % (f.name, what), where=where)
+                rule.fail()
+        TR.run_traces(m, f, region)
+    if n_regions == 0:
+        raise AnalysisBroken("wait_result_rule: no region starting with the return of a guard wait was found")
+
+
 def rules(rep, m):
     SIG = common.signal_table(m)
     may_yield = m.reaches({"cmi_coroutine_transfer"})
@@ -425,6 +494,12 @@ def rules(rep, m):
                   "with R-C02-9) - an event in a slot that is never looked at would resume the process out of a later wait", floor=1)
     from . import siftrules
     siftrules.check_scans(rep, r8, m, only={"cmb_event_pattern_cancel"})
+
+    # R-C04-10 -----------------------------------------------------------
+    r10 = rep.rule("R-C04-10", "a wait at a guard that returns another code than success ends the operation with exactly that code: "
+                   "every path after the wait that can be taken with such a code returns the value the wait returned (it does "
+                   "not take the resource, wait again or return success)", floor=6)
+    wait_result_rule(rep, r10, m)
 
     # R-C04-9 ------------------------------------------------------------
     r9 = rep.rule("R-C04-9", "a process that is interrupted, preempted or stopped while it waits for another process or for an "
